@@ -403,6 +403,13 @@ Fixpoint core_eqb (d : nat) : core d -> core d -> bool :=
   | S d' => fun a c => core_eqb d' (snd a) (snd c) && sait_eqb (fst a) (fst c)
   end.
 
+(** [iter == store.end()] for the store iterator of the top level of a core *)
+Definition core_at_end (d : nat) : core d -> bool :=
+  match d return core d -> bool with
+  | O => fun c => bmit_eqb c bmit_end
+  | S _ => fun c => sait_eqb (fst c) None
+  end.
+
 Definition trie_is_empty (d : nat) : trie d -> bool :=
   match d return trie d -> bool with
   | O => fun t => match sa_cells t with [] => true | _ => false end
@@ -544,12 +551,7 @@ Section TRIE.
                 | Some (vs, bc, ec) =>
                     (* if the nested end iterator is the nested store's end(): step to the next
                        entry of this level and start at its first element *)
-                    let nested_at_end :=
-                      match d' return core d' -> bool with
-                      | O => fun c => bmit_eqb c bmit_end
-                      | S _ => fun c => sait_eqb (fst c) None
-                      end ec in
-                    if nested_at_end then
+                    if core_at_end d' ec then
                       do cur' <- sa_next fx m SA_BITS t q f;
                       match cur' with
                       | None => Some (Some (hd 0%Z entry :: vs, (cur, bc), (None, ec)))
